@@ -34,6 +34,17 @@ mod verif_replay {
                 heap.inner.byte_len = heap.inner.byte_cap;
             }
         }
+        // a granted reservation must fit: `reserve(n)` may only succeed with 8n bytes free
+        for cells in 1..=4usize {
+            for req in 0..=64usize {
+                let mut heap = match Heap::with_cell_capacity(cells) { Ok(h) => h, Err(_) => continue };
+                let ok = heap.reserve(req).is_ok();
+                let free = heap.inner.byte_cap - heap.inner.byte_len;
+                if ok && free < 8 * req {
+                    println!("REPLAY-FAIL reserve: capacity {} cells, reserve({}) granted with only {} bytes free (needs {})", cells, req, free, 8 * req);
+                }
+            }
+        }
         for cells in 0..=6usize {
             let mut heap = match Heap::with_cell_capacity(cells.max(1)) { Ok(h) => h, Err(_) => continue };
             for _ in 0..(3 * cells + 3) {
